@@ -47,6 +47,20 @@ def configs(tier: str):
                     for B in (1, 2):
                         out.append(default_cfg(N=1, B=B, errors=errors, failures=failures, cfe=cfe, t=1, offset='zero', finite=True,
                                                faults=True, hook_faults=(B == 1), entry=entry))
+    # ARBITRARY PRE-STATE and HISTORIES: the period may already carry any status (a re-solve), and the state may have been
+    # reached through earlier public calls (every period solved before, read paths used, object copied / reindexed,
+    # series replaced by whole-series assignment) -- nothing remembered from before may influence this solve
+    for B in (1, 2) if tier == 'quick' else (0, 1, 2, 3):
+        for N in (1, 2):
+            for t in (1, -1) if tier == 'quick' else (0, 1, 2, -1):
+                for failures in ('raise', 'ignore'):
+                    out.append(default_cfg(N=N, B=B, failures=failures, t=t, offset='sym' if N == 1 else 'zero', status0='sym'))
+                    for stage in ('rebind', 'copy', 'reindex', 'rebind_copy'):
+                        if tier == 'quick' and (N == 2 and stage in ('copy', 'rebind_copy') or failures == 'ignore' and B == 1):
+                            continue
+                        out.append(default_cfg(N=N, B=B, failures=failures, t=t, offset='zero', stage=stage,
+                                               status0=None if stage != 'copy' else 'sym',
+                                               entry='solve_period' if (stage == 'reindex' and t >= 0) else 'solve_t'))
     return out
 
 
@@ -91,7 +105,9 @@ def finding_key(cfg: dict, cand: dict) -> str:
     bad = ' '.join(cand['replay']['bad'])
     if cfg['B'] == 0 and 'UnboundLocalError' in bad:
         return 'max_iter=0:UnboundLocalError'
-    return f"B={cfg['B']},N={cfg['N']},errors={cfg['errors']},failures={cfg['failures']},cfe={cfg['cfe']},t={cfg['t']},offset={cfg['offset']}:{cand['replay']['bad'][0] if cand['replay']['bad'] else '?'}"
+    hist = f",history={cfg['stage']}" if cfg.get('stage') else ''
+    hist += f",status0={cfg['status0']}" if cfg.get('status0') is not None else ''
+    return f"B={cfg['B']},N={cfg['N']},errors={cfg['errors']},failures={cfg['failures']},cfe={cfg['cfe']},t={cfg['t']},offset={cfg['offset']}{hist}:{cand['replay']['bad'][0] if cand['replay']['bad'] else '?'}"
 
 
 if __name__ == '__main__':
